@@ -151,6 +151,9 @@ def rule_whole_document_parsers(r, p):
 
 def run_cfg(ctx, p, cfg):
     feats = set(p.meta.get("features", []))
+    from rules import serde_defaults
+    serde_defaults.rule_missing_keys(ctx, p, cfg, "K9a", "config::raw::Root")       # a root without a level is at debug, without appenders has none
+    serde_defaults.rule_missing_keys(ctx, p, cfg, "K9b", "config::raw::Logger")     # a logger is additive unless it says otherwise
     with ctx.rule("K1", "unknown keys rejected", cfg) as r:
         n = 0
         for adt in DENY:
